@@ -151,10 +151,15 @@ class TermEval:
             if leafname == "diff":
                 xs = list(args[0])
                 return Vec(b - a for a, b in zip(xs[:-1], xs[1:]))
-            if leafname in ("equal", "not_equal", "less", "less_equal", "greater", "greater_equal"):
+            if leafname in ("lt", "le", "gt", "ge", "eq", "ne") and len(args) == 2 and \
+                    not isinstance(args[0], (list, tuple)) and not isinstance(args[1], (list, tuple)):
+                import operator
+                return getattr(operator, leafname)(args[0], args[1])
+            if leafname in ("equal", "not_equal", "less", "less_equal", "greater", "greater_equal", "lt", "le", "gt", "ge", "eq", "ne"):
                 import operator
                 op = {"equal": operator.eq, "not_equal": operator.ne, "less": operator.lt, "less_equal": operator.le,
-                      "greater": operator.gt, "greater_equal": operator.ge}[leafname]
+                      "greater": operator.gt, "greater_equal": operator.ge, "lt": operator.lt, "le": operator.le,
+                      "gt": operator.gt, "ge": operator.ge, "eq": operator.eq, "ne": operator.ne}[leafname]
                 a, b = args[0], args[1]
                 la = list(a) if isinstance(a, (list, tuple)) else [a]
                 lb = list(b) if isinstance(b, (list, tuple)) else [b]
